@@ -441,8 +441,8 @@ Qed.
 (* ------------------------------------------------------------------ *)
 (* the types of rules, declaratively.  has_type i t: rule i has Go type t
    - from an action method: the result type of the first method of its name;
-   - `c?`: the type of c (a terminal counts as Token - also ERROR, see
-     getReduceTypeForGeneratedRule);
+   - `c?`: the type of c (a terminal has getTermGoType: error type for
+     ERROR, Token otherwise);
    - `c+`, `c+!`, `@list(c,s)`: slice of the type of c (second production);
    - `c*`, `c*!`: the type of its `c+` rule. *)
 
@@ -1079,20 +1079,20 @@ Theorem cast_interface_delivers : forall o T t x,
   cast o T (DVal t x) = DVal t x.
 Proof. intros o T t x Hi Himp. unfold cast. simpl. rewrite Hi, Himp. reflexivity. Qed.
 
-(* for the template as it is: parameter i of method m *)
-Corollary param_value_delivers : forall o m i t x,
+(* the pinned tree's template: parameter i of method m *)
+Corollary param_value_old_delivers : forall o m i t x,
   let T := nth i (m_params m) 0 in
   (is_interface o T = false /\ identical o t T = true) \/
   (is_interface o T = true /\ implements o t T = true) ->
-  param_value o m i (DVal t x) = DVal t x.
+  param_value_old o m i (DVal t x) = DVal t x.
 Proof.
-  intros o m i t x T [[H1 H2]|[H1 H2]]; unfold param_value; fold T.
+  intros o m i t x T [[H1 H2]|[H1 H2]]; unfold param_value_old; fold T.
   - apply cast_delivers_when_identical; auto.
   - apply cast_interface_delivers; auto.
 Qed.
 
-(* the repair: casting to the static type the value was produced at always
-   gives the value back *)
+(* casting to the static type the value was produced at always gives the
+   value back *)
 Theorem cast_to_term_type_delivers : forall o S v,
   wf_dyn o v -> has_static_type o S v = true -> cast o S v = v.
 Proof.
@@ -1103,16 +1103,88 @@ Proof.
   - rewrite Hwf in *. destruct (is_interface o S); rewrite H; reflexivity.
 Qed.
 
+Corollary param_value_delivers : forall o S v,
+  wf_dyn o v -> has_static_type o S v = true -> param_value o S v = v.
+Proof. intros. unfold param_value. apply cast_to_term_type_delivers; auto. Qed.
+
 Corollary cast_to_own_type_delivers : forall o S x,
   (forall a, identical o a a = true) -> is_interface o S = false ->
-  param_value_repaired o S (DVal S x) = DVal S x.
+  param_value o S (DVal S x) = DVal S x.
 Proof.
-  intros o S x Hrefl Hi. unfold param_value_repaired.
+  intros o S x Hrefl Hi. unfold param_value.
   apply cast_delivers_when_identical; auto.
 Qed.
 
 (* ------------------------------------------------------------------ *)
-(* B5: the template as it is hands a zero value to the action.
+(* the value flow of a successful binding (current template): the arguments
+   of every action call are exactly the values produced for the terms *)
+
+Lemma rule_types_nodup : forall rules rt, NoDup (map fst (rule_types_of rules rt)).
+Proof.
+  intros rules rt. unfold rule_types_of. apply nodup_flat_map_fst.
+  - apply indexed_nodup.
+  - intros [i r] _. simpl. destruct (ity_ty (rt_get rt i)); eauto.
+Qed.
+
+Lemma rtl_get_in : forall rtl i s,
+  NoDup (map fst rtl) -> In (i, s) rtl -> rtl_get rtl i = Some s.
+Proof.
+  induction rtl as [|[j t] rtl IH]; simpl; intros i s Hnd Hin; [contradiction|].
+  inversion Hnd; subst. destruct Hin as [Hin|Hin].
+  - inversion Hin; subst. rewrite Nat.eqb_refl. reflexivity.
+  - destruct (j =? i) eqn:E.
+    + apply Nat.eqb_eq in E. subst j. exfalso. apply H1.
+      apply in_map_iff. exists (i, s). auto.
+    + apply IH; auto.
+Qed.
+
+Lemma term_go_type_has_ty : forall tok err rtl t s,
+  NoDup (map fst rtl) -> term_has_ty tok err rtl t s ->
+  term_go_type tok err rtl t = Some s.
+Proof.
+  intros tok err rtl [[|] i] s Hnd H; unfold term_has_ty, term_go_type in *; simpl in *.
+  - congruence.
+  - apply rtl_get_in; auto.
+Qed.
+
+(* v is a value an expression of the term's registered type can hold *)
+Definition produced_for (o : oracle) (tok err : ty) (rtl : list (nat * ty))
+           (t : bool * nat) (v : dyn) : Prop :=
+  exists s, term_has_ty tok err rtl t s /\ wf_dyn o v /\ has_static_type o s v = true.
+
+Lemma action_args_id : forall o tok err rtl terms vs,
+  NoDup (map fst rtl) -> Forall2 (produced_for o tok err rtl) terms vs ->
+  action_args o tok err rtl terms vs = vs.
+Proof.
+  intros o tok err rtl terms vs Hnd H.
+  induction H as [|t v terms vs [s [Hs [Hw Hst]]] _ IH]; simpl; auto.
+  rewrite (term_go_type_has_ty _ _ _ _ _ Hnd Hs).
+  rewrite param_value_delivers by assumption. f_equal. exact IH.
+Qed.
+
+Theorem values_flow : forall o tok err rules prods ms b rtl,
+  assign_actions o tok err rules prods ms = BOk b rtl ->
+  forall pi p, nth_error prods pi = Some p -> kind_of rules (bp_rule p) = NotGenerated ->
+  exists m, In m ms /\ In (pi, m_id m) b /\
+    (* the call type-checks: each term's type is assignable to the parameter *)
+    accepts o tok err rtl m p /\
+    (* and whatever was produced for the terms is what the action receives *)
+    forall vs, Forall2 (produced_for o tok err rtl) (bp_terms p) vs ->
+      List.length vs = List.length (m_params m) /\
+      action_args o tok err rtl (bp_terms p) vs = vs.
+Proof.
+  intros o tok err rules prods ms b rtl H pi p Hn Hk.
+  destruct (binding_unique o tok err rules prods ms b rtl H) as [_ [_ [_ Hall]]].
+  destruct (Hall pi p Hn Hk) as [m [Hms [Hb [_ [_ [_ [Hlen Hacc]]]]]]].
+  exists m. split; auto. split; auto. split; auto. intros vs Hvs. split.
+  - apply Forall2_len in Hvs. congruence.
+  - apply assign_ok_inv in H. destruct H as [_ [rt [_ [_ [_ [_ [_ ->]]]]]]].
+    apply action_args_id; auto. apply rule_types_nodup.
+Qed.
+
+(* ------------------------------------------------------------------ *)
+(* B5: the pinned tree's template handed a zero value to the action (defect
+   D6, fixed by commit 156a4e1; param_value_old is that template).
    Types: 0 = Expr, 1 = []Expr, 2 = `type Exprs []Expr`, 10 = Token,
    11 = error.  []Expr is assignable to Exprs (identical underlying types,
    one side not named) but not identical to it.
@@ -1149,17 +1221,17 @@ Example cast_zero_refuted :
   assignable ex_o 1 (nth 0 (m_params ex_on_s) 0) = true /\
   (* ... which is neither an interface nor identical to []Expr *)
   is_interface ex_o 2 = false /\ identical ex_o 1 2 = false /\
-  (* so at run time the action receives the zero value, whatever was produced *)
-  (forall x, param_value ex_o ex_on_s 0 (DVal 1 x) = DZero 2) /\
-  (* while casting to the term's own type delivers it *)
-  (forall x, param_value_repaired ex_o 1 (DVal 1 x) = DVal 1 x).
+  (* so with the old template the action received the zero value *)
+  (forall x, param_value_old ex_o ex_on_s 0 (DVal 1 x) = DZero 2) /\
+  (* while the current template (cast to the term's own type) delivers it *)
+  (forall x, param_value ex_o 1 (DVal 1 x) = DVal 1 x) /\
+  (forall x, action_args ex_o 10 11 [(1, 0); (2, 0); (3, 1)] [(false, 3)] [DVal 1 x] = [DVal 1 x]).
 Proof. repeat split; vm_compute; reflexivity. Qed.
 
-(* A second defect of the same kind, found while testing the model against
-   the tool: for `@error+` the registered rule type is []Token (a terminal
-   is always Token in getReduceTypeForGeneratedRule) but the value built by
-   the one_or_more template is a []<error type> (get_term_go_type).  A method
-   with a []Token parameter is accepted (lox exits 0) and receives nil.
+(* `@error+` (defect D6c of the pinned tree, fixed by commit e7bf6de): the
+   rule ERROR+ is registered as []<error type>, which is also what the
+   one_or_more template builds.  A []Error parameter is accepted and receives
+   the list; a []Token parameter is refused with a diagnostic.
    Types: 10 Token, 11 error, 110 []Token, 111 []error. *)
 Definition ex2_o : oracle := {|
   identical := Nat.eqb; assignable := Nat.eqb; slice_of := fun t => 100 + t;
@@ -1176,14 +1248,16 @@ Definition ex2_prods : list bprod := [
   {| bp_rule := 2; bp_terms := [(false, 2); (true, 1)] |};
   {| bp_rule := 2; bp_terms := [(true, 1)] |} ].
 
-Definition ex2_on_s : meth := {| m_id := 0; m_name := "on_s"; m_params := [110]; m_results := [10] |}.
+Definition ex2_on_s (param : ty) : meth :=
+  {| m_id := 0; m_name := "on_s"; m_params := [param]; m_results := [10] |}.
 
-Example error_plus_refuted :
-  assign_actions ex2_o 10 11 ex2_rules ex2_prods [ex2_on_s] = BOk [(1, 0)] [(1, 10); (2, 110)] /\
-  (* element type registered for ERROR+ vs element type of the value built *)
-  registered_elem_type 10 [] (true, 1) = IT 10 /\
+Example error_plus_fixed :
+  assign_actions ex2_o 10 11 ex2_rules ex2_prods [ex2_on_s 111] = BOk [(1, 0)] [(1, 10); (2, 111)] /\
+  assign_actions ex2_o 10 11 ex2_rules ex2_prods [ex2_on_s 110] = BErr [DNoMatch 1] /\
+  registered_elem_type 10 11 [] (true, 1) = IT 11 /\
   built_elem_type 10 11 [] (true, 1) = IT 11 /\
-  (forall x, param_value ex2_o ex2_on_s 0 (DVal (slice_of ex2_o 11) x) = DZero 110).
+  (forall x, action_args ex2_o 10 11 [(1, 10); (2, 111)] [(false, 2)]
+                         [DVal (slice_of ex2_o 11) x] = [DVal 111 x]).
 Proof. repeat split; vm_compute; reflexivity. Qed.
 
 Print Assumptions binding_unique.
@@ -1191,5 +1265,6 @@ Print Assumptions diagnostic_names_culprit.
 Print Assumptions cast_delivers_when_identical.
 Print Assumptions cast_interface_delivers.
 Print Assumptions cast_to_term_type_delivers.
+Print Assumptions values_flow.
 Print Assumptions cast_zero_refuted.
-Print Assumptions error_plus_refuted.
+Print Assumptions error_plus_fixed.
